@@ -218,6 +218,55 @@ class PyIndex:
     def _unwrap_decorators(self):
         self._merge_singledispatch()
         self._unwrap_wrappers()
+        self._partials_to_functions()
+
+    def _partials_to_functions(self):
+        """Module level `name = partial(f, a, k=v)` with f a function of the same module is read as `def name(<the other parameters of f>): return f(a, <them>, k=v)`:
+        the thin wrapper it stands for (rules anchor on such names; the inliner expands the call)."""
+        import copy
+        for mod in self.modules.values():
+            fdefs = {st.name: st for st in mod.tree.body if isinstance(st, ast.FunctionDef)}
+            new_body: List[ast.stmt] = []
+            for st in mod.tree.body:
+                v = st.value if isinstance(st, ast.Assign) and len(st.targets) == 1 and isinstance(st.targets[0], ast.Name) else None
+                if not (isinstance(v, ast.Call) and ((isinstance(v.func, ast.Name) and v.func.id == 'partial') or (isinstance(v.func, ast.Attribute) and v.func.attr == 'partial'))
+                        and v.args and isinstance(v.args[0], ast.Name) and v.args[0].id in fdefs and not any(isinstance(a, ast.Starred) for a in v.args)
+                        and all(k.arg is not None for k in v.keywords)):
+                    new_body.append(st)
+                    continue
+                f = fdefs[v.args[0].id]
+                if f.args.vararg or f.args.kwarg or f.args.posonlyargs or f.decorator_list:
+                    new_body.append(st)
+                    continue
+                fparams = [a.arg for a in f.args.args]
+                n_pos = len(v.args) - 1
+                bound_kw = {k.arg for k in v.keywords}
+                rest = [a for a in f.args.args[n_pos:] if a.arg not in bound_kw]
+                defaults = dict(zip(fparams[len(fparams) - len(f.args.defaults):], f.args.defaults))
+                rest_defaults = []
+                seen_default = False
+                okp = True
+                for a in rest:
+                    if a.arg in defaults:
+                        rest_defaults.append(copy.deepcopy(defaults[a.arg]))
+                        seen_default = True
+                    elif seen_default:
+                        okp = False
+                if not okp:
+                    new_body.append(st)
+                    continue
+                call = ast.Call(func=ast.Name(id=f.name, ctx=ast.Load()), args=[copy.deepcopy(a) for a in v.args[1:]],
+                                keywords=[ast.keyword(arg=a.arg, value=ast.Name(id=a.arg, ctx=ast.Load())) for a in rest] + [copy.deepcopy(k) for k in v.keywords])
+                fn = ast.FunctionDef(name=st.targets[0].id,
+                                     args=ast.arguments(posonlyargs=[], args=[copy.deepcopy(a) for a in rest], vararg=None, kwonlyargs=[], kw_defaults=[], kwarg=None,
+                                                        defaults=rest_defaults),
+                                     body=[ast.Return(value=call)], decorator_list=[], returns=copy.deepcopy(f.returns), type_comment=None)
+                if hasattr(f, 'type_params'):
+                    fn.type_params = []
+                ast.copy_location(fn, st)
+                ast.fix_missing_locations(fn)
+                new_body.append(fn)
+            mod.tree.body = new_body
 
     def _unwrap_wrappers(self):
         """`@deco def f(..)` where deco is a function of the package of the plain wrapping shape
